@@ -49,8 +49,19 @@ pub fn probe_result(name: &str, arg: &Value) -> Value {
     Value::Vec(vec![Value::String(name.to_string()), arg.clone()])
 }
 
+/// The error a failing probe raises: for every other argument rendering it is one of the crate's own error values
+/// wrapped in anyhow (the idiom `let n: i128 = param.try_into()?;`), otherwise a plain message.
+pub fn probe_error(name: &str, key: &str) -> anyhow::Error {
+    let msg = format!("probe {name} refuses {key}");
+    if key.len() % 2 == 1 {
+        anyhow::Error::new(reval::Error::ValueSerializationError(msg))
+    } else {
+        anyhow::anyhow!(msg)
+    }
+}
+
 pub fn probe_error_message(name: &str, key: &str) -> String {
-    format!("probe {name} refuses {key}")
+    probe_error(name, key).to_string()
 }
 
 pub struct Env<'a> {
